@@ -72,8 +72,8 @@ def run(t, n, s1, r1, pi, mc, count, fi, un, cls, few=False):
     else:
         res = recv.format_matching(pat, *fmt, regex=is_regex, match_case=bool(mc), count=count)
     got = s if cls == 0 else res
-    if cls == 1 and (S(s, n) != tab or not isinstance(res, AnsiStr)):
-        return ('ansistr-receiver-changed',)
+    if cls == 1 and (S(s, n) != tab or S(recv, n) != tab or str.__str__(recv) != recv.to_str() or not isinstance(res, AnsiStr)):
+        return ('ansistr-receiver-changed', S(recv, n), tab)
     if got.base_str != t:
         return ('text-changed', got.base_str)
     if S(got, n) != S(exp, n) or str(got) != str(exp):
@@ -101,7 +101,7 @@ def h_sym(t: str, n: int, s1: int, r1: int, pi: int, mc: bool, count: int, fi: i
     return run(t, n, s1, r1, pi, mc, count, fi, un, 0)
 
 
-PAIRS = (('aXa', 3), ('AbAB', 4), ('a.b', 3), ('a+a', 3), ('', 0), ('ba', 2), ('aaa', 3), ('A a', 3), ('xaby', 4), ('..', 2))
+PAIRS = (('aXa', 3), ('AbAB', 4), ('a.b', 3), ('a+a', 3), ('', 0), ('ba', 2), ('aaa', 3), ('A a', 3), ('xaby', 4), ('..', 2), ('.', 1), ('a.', 2), ('+', 1))
 
 
 def h_pairs(ti: int, s1: int, r1: int, pi: int, mc: bool, count: int, fi: int, un: bool, cls: int):
@@ -112,8 +112,8 @@ def h_pairs(ti: int, s1: int, r1: int, pi: int, mc: bool, count: int, fi: int, u
 
 
 BOUNDS = {
-    'quick': 'family (i): base text = any string (all Unicode, no ESC) of length <=2 x 4 simple patterns (a+, b*, literal ab, literal a); family (ii): 10 concrete '
-             'texts x 10 patterns (literals with metacharacters, alternation, groups, dot); prior formatting: 1 apply step over (red, bold, blue) on all canonical ranges (family ii: red on the first / full / last range, 2 formats / 3 selections); '
+    'quick': 'family (i): base text = any string (all Unicode, no ESC) of length <=2 x 4 simple patterns (a+, b*, literal ab, literal a); family (ii): 13 concrete '
+             'texts (incl. texts as short as the escaped pattern) x 10 patterns (literals with metacharacters, alternation, groups, dot); prior formatting: 1 apply step over (red, bold, blue) on all canonical ranges (family ii: red on the first / full / last range, 2 formats / 3 selections); '
              'both case flags; count: ALL integers; 4 formats / 6 unformat selections; both classes in family (ii)',
     'thorough': 'family (i) texts up to length 3 and all 10 patterns',
 }
@@ -139,5 +139,5 @@ def obligations(tier):
                 if cls == 1 and q and ti not in (0, 1):
                     continue
                 obs.append(Ob('pairs/%s/t%d/c%d' % ('un' if un else 'fmt', ti, cls), h_pairs, dict(ti=ti, un=un, cls=cls, s1=0), need=('count-0',), budget=900,
-                              bounds='text %r x 10 patterns' % PAIRS[ti][0], kinds=KINDS))
+                              bounds='text %r x 10 patterns' % (PAIRS[ti][0],), kinds=KINDS))
     return obs
